@@ -174,6 +174,10 @@ func (r *run) validate() bool {
 			if s.N < 0 {
 				return false
 			}
+		case opYears:
+			if s.N < 1 || s.N > 100 {
+				return false
+			}
 		default:
 			return false
 		}
@@ -273,6 +277,14 @@ func (r *run) main(bt *testing.T) {
 			r.boot(bt, true)
 		case opNoCache:
 			r.boot(bt, false)
+		case opYears:
+			// restarts years apart: the cached certificate may have expired by
+			// then, the identity it carries has not
+			time.Sleep(time.Duration(s.N) * 366 * 24 * time.Hour)
+			r.probes["years_passed"] += int64(s.N)
+			r.faults["clock_jump_years"]++
+			r.nontrivial = true
+			r.logf("years_pass n=%d", s.N)
 		default:
 			r.inject(s)
 		}
